@@ -29,6 +29,7 @@ def run(ctx, rep):
     triangle_edges(prog, rep)
     winding_symmetry(prog, rep)
     polyline_points(prog, rep)
+    outline_runs(prog, rep)
 
 
 def triangle_edges(prog, rep):
@@ -335,3 +336,59 @@ def winding_symmetry(prog, rep):
         return
     rep.check(not bad, "R19.3", "contains:winding", "Triangle::contains must decide a point the same way for both vertex orders (invariance under (s, t, area) -> (-s, -t, -area)): %s" % "; ".join(bad[:2]),
               at=co.span, fn=co.path, detail=bad)
+
+
+def outline_runs(prog, rep):
+    """R19.4 the outline rows of a stroked triangle keep every edge: in ScanlineIntersections::edge_intersections each
+    edge's intersection with the row is disposed of on every loop path — merged into the left run when it touches it,
+    made the left run when that is empty, and only otherwise (after the left run refused it) kept as or merged into the
+    right run.  An intersection that goes to the right run without having been offered to the left run first leaves two
+    touching runs, and a later separate intersection is then dropped (the outline loses an edge pixel)."""
+    from mirq.paths import Paths, Unsupported, show_fact, show_eff
+    cl = [f for f in prog.fns.values() if f.body and f.kind == "closure" and f.root_fn().name == "edge_intersections" and f.parent_fn == f.root_fn().id]
+    if len(cl) != 1:
+        rep.check(False, "R19.4", "edge_intersections:runs", "anchor lost: the from_fn closure of edge_intersections (%d found)" % len(cl), status="undecided")
+        return
+    f = cl[0]
+    try:
+        summs = Paths(prog, inline=lambda g: prog.is_new(g), loops="once", local_effects=True).of(f)
+    except Unsupported as e:
+        rep.check(False, "R19.4", "edge_intersections:runs", "cannot summarise the closure: %s" % e, status="undecided", at=f.span, fn=f.path)
+        return
+    up = {l.get("name"): i for i, l in enumerate(f.body["locals"])}
+    is_s = lambda t: any(n[0] == "call" and n[1].endswith("ThickSegment::intersection") for n in walk(t))
+    is_up = lambda t, nm: strip_refs(t)[0] == "upvar" and strip_refs(t)[2] == nm
+    bad, n_loop, kinds = [], 0, set()
+    for sm in summs:
+        if sm.ret is not None:
+            continue
+        n_loop += 1
+        tried_left = refused_left = False
+        for fct in sm.facts:
+            if fct[0] in ("true", "false") and fct[1][0] == "call" and fct[1][1].endswith("Scanline::try_extend") and is_up(fct[1][3][0], "left") and is_s(fct[1][3][1]):
+                tried_left = True
+                refused_left = fct[0] == "false"
+        left_empty = any(fct[0] == "true" and fct[1][0] == "call" and fct[1][1].endswith("Scanline::is_empty") and is_up(fct[1][3][0], "left") for fct in sm.facts)
+        disposed = []
+        for e in sm.effects:
+            if e[0] == "write" and e[1][0] == "upvar" and e[1][2] in ("left", "right") and is_s(e[2]):
+                disposed.append(("set", e[1][2]))
+            if e[0] == "call" and e[1][1].endswith("Scanline::try_extend") and is_s(e[1][3][1]):
+                tgt = strip_refs(e[1][3][0])
+                if tgt[0] == "upvar" and tgt[2] == "right":
+                    disposed.append(("extend", "right"))
+        if tried_left and not refused_left:
+            disposed.append(("extend", "left"))
+        where = "; ".join(show_fact(x)[:50] for x in sm.facts[2:5])
+        if not disposed:
+            bad.append("a loop path drops the edge's intersection [%s]" % where)
+        for how, side in disposed:
+            kinds.add((how, side))
+            if side == "right" and not refused_left:
+                bad.append("the intersection goes to the right run without having been refused by the left run [%s]" % where)
+            if (how, side) == ("set", "left") and not left_empty:
+                bad.append("the left run is overwritten while it is not empty [%s]" % where)
+    want = {("set", "left"), ("extend", "left"), ("set", "right"), ("extend", "right")}
+    rep.check(not bad and kinds == want and n_loop >= 4, "R19.4", "edge_intersections:runs",
+              "every edge intersection must be merged into / become the left run, or after the left run refused it the right run: %s" % ("; ".join(sorted(set(bad))[:2]) or "dispositions found: %s" % sorted(kinds)),
+              at=f.span, fn=f.path, detail={"loop_paths": n_loop})
